@@ -81,6 +81,19 @@ Fixpoint track_good_run (pf : bool) (s : st) (os : list obs) : Prop :=
   | o :: os' => track_good pf s o = true /\ track_good_run (far_next s) (fst (step s o)) os'
   end.
 
+(** the states after each sample of a run *)
+Fixpoint states (s : st) (os : list obs) : list st :=
+  match os with
+  | [] => []
+  | o :: os' => let s1 := fst (step s o) in s1 :: states s1 os'
+  end.
+
+(** the monitor state stays within its bounds: the next symbol is never overdue *)
+Definition mon_bounded (m : mon) : Prop :=
+  (0 <= m.(m_n) /\ m.(m_n) < PAYLOAD_SYMBOLS) /\ 
+  (m.(m_n) = 0 -> (0 <= m.(m_t) /\ m.(m_t) < (SYNC_SYMBOLS + 1) * SAMPLES_PER_SYMBOL)) /\ 
+  (0 < m.(m_n) -> (0 <= m.(m_t) - m.(m_last) /\ m.(m_t) - m.(m_last) <= SAMPLES_PER_SYMBOL)).
+
 (** C06: hypothesis of the liveness theorem on one sample: carrier present, indices in range, fair clock *)
 Definition live_good (pf : bool) (s : st) (o : obs) : bool :=
   obs_carrier o && obs_in_range o &&
